@@ -5,7 +5,7 @@
 From Coq Require Import List ZArith.
 Import ListNotations.
 From Goag Require Import Base.Str Model.Params Model.Json Spec.JsonSpec
-     Proofs.JsonEncProofs Proofs.JsonRtProofs Proofs.JsonStrictProofs.
+     Proofs.JsonEncProofs Proofs.JsonRtProofs Proofs.JsonStrictProofs Model.OneOf Proofs.OneOfProofs.
 
 (* a document that lacks a required property is rejected *)
 Theorem C08_missing_required : forall parse_num parse_time ms addl members k sf v,
@@ -39,3 +39,20 @@ Theorem C08_lossless_on_encodings : forall fmt_float fmt_time parse_num parse_ti
   forall s v j, rt_ok s v -> enc fmt_float fmt_time s v = Ok j -> dec parse_num parse_time s j = Ok v.
 Proof. exact roundtrip. Qed.
 Print Assumptions C08_lossless_on_encodings.
+
+(* oneOf: whatever the decoder accepts was accepted by one of the variants'
+   own decoders (so the strictness theorems above apply to it), and only that
+   variant's field is set; a discriminator value the switch does not list is
+   rejected whatever else the document holds *)
+Theorem C08_oneof_accepts_only_a_variant : forall parse_num parse_time o j fs,
+  dec_oneof parse_num parse_time o j = Ok fs ->
+  exists i s v, nth_error (o_variants o) i = Some s /\ dec parse_num parse_time s j = Ok v /\
+                fs = single (length (o_variants o)) i v.
+Proof. exact oneof_dec_sound. Qed.
+Print Assumptions C08_oneof_accepts_only_a_variant.
+
+Theorem C08_oneof_unknown_discriminator : forall parse_num parse_time o key cases j k,
+  o_disc o = Some (key, cases) -> disc_key key j = Ok k -> find_case cases k = None ->
+  dec_oneof parse_num parse_time o j = ErrOther.
+Proof. exact oneof_disc_unknown. Qed.
+Print Assumptions C08_oneof_unknown_discriminator.
